@@ -73,6 +73,8 @@ def cases(ctx):
     for outer in ("hex", "hexcu", "cart", "cartoff"):
         for inner in (None, "hex", "hexcu", "cart"):
             out.append({"kind": "nest", "outer": outer, "inner": inner, "rings": 3 if ctx.quick else 4})
+    for gk in ("hex", "hexcu", "cart", "cartoff"):
+        out.append({"kind": "gridhist", "grid": gk, "len": 4 if ctx.quick else 5})
     for outer in ("cart", "hex", "hexcu"):
         out.append({"kind": "nest3d", "outer": outer, "dz": 4.0, "nk": 3, "rings": 3 if ctx.quick else 5})
     return out
@@ -618,7 +620,85 @@ def _eval_nestrz(case):
     return vs, nev, nev
 
 
-_EVAL = {"hex": _eval_hex, "hexcount": _eval_hexcount, "cart": _eval_cart, "axial": _eval_axial, "thetarz": _eval_thetarz, "nest": _eval_nest, "nest3d": _eval_nest3d, "nestrz": _eval_nestrz}
+def _eval_gridhist(case):
+    """All sequences of <= L grid operations {changePitch(a), changePitch(b), read pitch, backUp,
+    restoreBackup}; in every reached state the reported pitch, the coordinates and the neighbour
+    distances must agree with each other and with a reference model of (pitch, backup stack)."""
+    from armi.reactor import grids
+
+    vs = []
+
+    def bad(key, msg, **kw):
+        c = dict(case)
+        c.update(kw)
+        vs.append(core.viol("c07/" + key, msg, c))
+
+    kind, L = case["grid"], case["len"]
+    p0 = 1.25
+    alts = (2.5, 0.75)
+    ops = ["cp0", "cp1", "read", "backup", "restore"]
+    nev = 0
+    cells = hex_cells(3) if kind.startswith("hex") else list(itertools.product(range(-2, 3), repeat=2))
+    for n in range(1, L + 1):
+        for seq in itertools.product(ops, repeat=n):
+            # restore only when something is backed up (single slot or stack: both agree for depth 1;
+            # nested backups are C16's subject) - keep at most one outstanding backup
+            depth, ok = 0, True
+            for o in seq:
+                if o == "backup":
+                    if depth:
+                        ok = False
+                        break
+                    depth = 1
+                elif o == "restore":
+                    if not depth:
+                        ok = False
+                        break
+                    depth = 0
+            if not ok:
+                continue
+            nev += 1
+            if kind == "hex":
+                g = grids.HexGrid.fromPitch(p0, numRings=3)
+            elif kind == "hexcu":
+                g = grids.HexGrid.fromPitch(p0, numRings=3, cornersUp=True)
+            else:
+                g = grids.CartesianGrid.fromRectangle(p0, p0 * 2, numRings=3, isOffset=(kind == "cartoff"))
+            model, saved = p0, None
+            for o in seq:
+                if o in ("cp0", "cp1"):
+                    model = alts[int(o[2])]
+                    if kind.startswith("hex"):
+                        g.changePitch(model)
+                    else:
+                        g.changePitch(model, model * 2)
+                elif o == "read":
+                    g.pitch
+                elif o == "backup":
+                    g.backUp()
+                    saved = model
+                elif o == "restore":
+                    g.restoreBackup()
+                    model = saved
+            rep = g.pitch if kind.startswith("hex") else g.pitch[0]
+            if abs(rep - model) > TOL * model:
+                bad("pitch-after-history", "%s grid after %s reports pitch %r, the operations leave %r" % (kind, list(seq), rep, model), seq=list(seq))
+                continue
+            for i, j in cells:
+                c0 = g.getCoordinates((i, j, 0))
+                if kind.startswith("hex"):
+                    ui, uj = hex_unit(model, kind == "hexcu")
+                    want = (i * ui[0] + j * uj[0], i * ui[1] + j * uj[1], 0.0)
+                else:
+                    off = (model / 2.0, model, 0.0) if kind == "cartoff" else (0.0, 0.0, 0.0)
+                    want = (i * model + off[0], j * model * 2 + off[1], 0.0)
+                if not _close(c0, want):
+                    bad("coords-after-history", "%s grid after %s: cell (%d,%d) at %s, expected %s for pitch %r" % (kind, list(seq), i, j, list(c0), want, model), seq=list(seq))
+                    break
+    return vs, nev, nev
+
+
+_EVAL = {"hex": _eval_hex, "hexcount": _eval_hexcount, "cart": _eval_cart, "axial": _eval_axial, "thetarz": _eval_thetarz, "nest": _eval_nest, "nest3d": _eval_nest3d, "nestrz": _eval_nestrz, "gridhist": _eval_gridhist}
 
 
 def run(ctx):
